@@ -173,7 +173,11 @@ let op_e2e (words : string list) : string =
     (* ---- the history predicates of Model/Writer.v ---- *)
     if not (c08_limits_holds cfg journal) then flag "C08_limits_holds";
     if not (rejected_sends_nothing_holds mcalls journal) then flag "rejected_sends_nothing_holds";
-    List.iter2 (fun hc mc -> if hc.hc_res <> None && not (verdict_holds cfg mc hc.hc_merr) then flag "verdict_holds") !calls mcalls;
+    (* a metadata failure whose position the harness could not observe (concurrent callers) may
+       pre-empt any later topic error: no verdict to compare then *)
+    List.iter2 (fun hc mc ->
+      if hc.hc_res <> None && not (hc.hc_res = Some "meta" && hc.hc_merr = None)
+         && not (verdict_holds cfg mc hc.hc_merr) then flag "verdict_holds") !calls mcalls;
     if not (c01_nil_holds cfg mcalls journal mlog) then flag "C01_nil_holds";
     if not (c01_we_holds cfg mcalls journal) then flag "C01_we_holds";
     if not (c01_compl_holds cfg mcalls journal mcompl) then flag "C01_compl_holds";
